@@ -73,6 +73,13 @@ class RecStream(object):
         self.closed = True
 
 
+def _inflate(body):
+    try:
+        return zlib.decompress(body)
+    except zlib.error:
+        return None
+
+
 def check_frames(chk, const, rnd):
     from rpyc.core.channel import Channel
     n = 0
@@ -101,7 +108,7 @@ def check_frames(chk, const, rnd):
                         bad = "no trailing newline"
                     elif flag != want_flag:
                         bad = "compression flag %d for %d bytes with compression %s (threshold %d)" % (flag, size, comp, th)
-                    elif flag == 1 and zlib.decompress(body) != data:
+                    elif flag == 1 and _inflate(body) != data:
                         bad = "compressed payload does not decompress to the data"
                     elif flag == 0 and body != data:
                         bad = "payload differs from the data"
